@@ -61,8 +61,8 @@ impl rand::SeedableRng for ScriptRng {
 
 /// The script of 64-bit words the generator of the case with this seed replays first: empty for three seeds in four,
 /// otherwise 1-12 words from a vocabulary of edge values (all zero, all one, the largest / smallest uniform floats, many
-/// leading zero bits, a zero low byte) mixed with arbitrary words. A pure function of the seed, so a case stays
-/// replayable from its seed alone.
+/// leading zero bits, a zero low byte) mixed with arbitrary words, one script in three a single such word repeated. A
+/// pure function of the seed, so a case stays replayable from its seed alone.
 pub fn script_of(seed: u64) -> Vec<u64> {
     fn mix(mut z: u64) -> u64 {
         z = z.wrapping_add(0x9E37_79B9_7F4A_7C15);
@@ -75,6 +75,17 @@ pub fn script_of(seed: u64) -> Vec<u64> {
         return Vec::new();
     }
     let len = 1 + (h >> 8) % 12;
+    // one script in three repeats a single edge-value word (the same index / the same uniform value drawn up to twelve
+    // times in a row)
+    if (h >> 20) % 3 == 0 {
+        let w = match (h >> 24) % 4 {
+            0 => 0,
+            1 => u64::MAX,
+            2 => u64::MAX << 11,
+            _ => mix(h) & !0xff,
+        };
+        return vec![w; len as usize];
+    }
     (0..len)
         .map(|k| {
             let r = mix(h.wrapping_add(k));
